@@ -682,3 +682,49 @@ def rule_flat_views(prog, C, rule):
             else:
                 C.add(rule, UNDECIDED, where, cons, "reshape order %s: cannot decide that the result is a view in cell order" % tm.show(order))
     return n
+
+
+# ------------------------------------------------------------------------------ bins()
+def rule_bins(prog, C, rule):
+    """xfunc.bins(coordinates, size) presents EVERY cell u in range(size) with the mask of exactly its rows
+    (coordinates == u); without a size, every distinct coordinate value u with the rows equal to it."""
+    fi = prog.cls("xfuncs", "xfunc").methods.get("bins")
+    if fi is None:
+        C.add(rule, UNDECIDED, "xfuncs:xfunc.bins", "bins schema", "method not found (anchor vanished)")
+        return 0
+    I = Interp(prog, hints.param_types_for("xfuncs"), hints.FIELD_TYPES, inline=False)
+    I.run(fi)
+    coords, size = tm.param(fi.params()[0]), tm.param(fi.params()[1])
+    ys = [e for e in I.events if e.kind == "yield" and not e.stack]
+    if len(ys) != 2:
+        C.add(rule, UNDECIDED, fi.fq, "bins schema", "expected two yields (with and without a size), found %d" % len(ys))
+        return 0
+    n = 0
+    for e in ys:
+        v = e["value"]
+        sized = any(c.op == "cmp" and c.args[0] == "is" and not pol and size in c.args[1:] for c, pol in e.guards)
+        where = "%s@%d" % (fi.fq, e.line)
+        n += 1
+        if v.op != "tuple" or len(v.args) != 2 or not e.loops:
+            C.add(rule, UNDECIDED, where, "bins yields (cell, row mask)", "yields %s" % tm.show(v)[:60])
+            continue
+        u, mask = v.args
+        it = I.loopinfo[e.loops[-1]].get("iter")
+        if sized:
+            full = it is not None and it.op == "call" and tm.callee_name(it) == "builtins.range" and it.args[1] == (size,)
+            C.ok(full, rule, where, "bins (size given): every cell 0 .. size-1 is presented", "for u in range(size)",
+                 "the loop runs over %s: cells outside it are never filled and keep their initial (missing) value" % (tm.show(it)[:40] if it is not None else "?"),
+                 witness={"inputs": "any xcube aggregate that fills per cell (quantile, several fact columns, min/max): cell 0 stays missing"})
+            okm = u.op == "iter" and mask.op == "cmp" and mask.args[0] == "==" and {mask.args[1], mask.args[2]} == {coords, u}
+            C.ok(okm, rule, where, "bins (size given): the mask of cell u is coordinates == u", "", "mask is %s" % tm.show(mask)[:50],
+                 witness={"inputs": "rows of other cells are aggregated into this one"})
+        else:
+            uq = it.args[1][0] if (it is not None and it.op == "call" and tm.callee_name(it) == "builtins.enumerate" and it.args[1]) else None
+            oku = uq is not None and uq.op == "unpack" and uq.args[1] == 0 and uq.args[0].op == "call" and tm.callee_name(uq.args[0]) == "numpy.unique" \
+                and uq.args[0].args[1] and uq.args[0].args[1][0] == coords and tm.kwarg(uq.args[0], "return_inverse") == tm.TRUE
+            okv = oku and u.op == "iter" and u.args[0] == uq
+            inv = T("unpack", uq.args[0], 1, 2) if oku else None
+            okm = oku and mask.op == "cmp" and mask.args[0] == "==" and inv in mask.args[1:] and any(a.op == "enumidx" and a.args[0] == uq for a in mask.args[1:])
+            C.ok(bool(okv and okm), rule, where, "bins (no size): yields each distinct value with the rows whose inverse index points at it", "(uniqs[i], row_indexes == i)",
+                 "yields %s" % tm.show(v)[:80], witness={"inputs": "coordinates that are not 0..k-1: cells are labelled by position instead of by value"})
+    return n
